@@ -828,9 +828,11 @@ func main() {
 		runBatch(w, name, jobs, par)
 		if which <= 6 { // ctx-aware: the blocked-on-send scenarios, sequentially
 			settle(runtime.NumGoroutine())
-			for i := 0; i < nAbandon; i++ {
+			leaks := 0
+			for i := 0; i < nAbandon && leaks < 4; i++ { // each leak costs the settle deadline: a few are proof enough
 				c := genAbandon(rng, which)
 				if c.runAbandon() {
+					leaks++
 					w.Violation(name, "goroutine leak", map[string]interface{}{"scenario": "consumer stopped after j values, cancel while value j+1 is pending at the send",
 						"j": c.abandonJ, "coq": c.coq, "planned": c.planned, "handed": c.ins, "received": c.outs})
 				}
